@@ -730,7 +730,11 @@ def c16_check(variant, recs, t, wd, final_newline=True):
     name, kk, ww = variant
     inp = os.path.join(wd, "in.fa")
     data = fasta_bytes(recs)
-    if not final_newline and data.endswith(b"\n"):
+    if final_newline == "bare" and data.endswith(b"\n\n"):
+        # a last record without bases, written without a sequence line and without a line terminator: the file ends
+        # with the header text
+        data = data[:-2]
+    elif not final_newline and data.endswith(b"\n"):
         data = data[:-1]
     open(inp, "wb").write(data)
     out = os.path.join(wd, "out")
@@ -884,6 +888,8 @@ def c16(tier):
             # the same input without its final line feed (the last record then ends at end of file)
             if l and name in ("oligo", "oligo-c", "oligo-stdin", "cgr", "kcgr", "cov", "s2m-w9", "m2s-w0", "ctr"):
                 cases.append((variant, l, 2, False))
+                if l[-1] == "empty" and len(l) >= 2:
+                    cases.append((variant, l, 3, "bare"))
 
     # record counts at and around the powers of two a writer could plausibly chunk its work by (and the 10 000 of
     # the progress messages): degenerate records only, three shapes in rotation
@@ -911,7 +917,7 @@ def c16(tier):
         rep.ev(1, 1)
         rep.outcome("%s:%s" % (variant[0], "ok" if res is None else res[0]))
         if res is not None:
-            rep.violation(res[0], sum(len(r) + 1 for r in recs[:50]) + 10 * len(recs), res[1] + ("" if final_nl else " [input without final line feed]"), "c16", {"variant": list(variant), "shapes": list(l), "t": t, "final_newline": final_nl})
+            rep.violation(res[0], sum(len(r) + 1 for r in recs[:50]) + 10 * len(recs), res[1] + ("" if final_nl is True else " [input without final line feed]" if final_nl is False else " [input ends with the header text of a record without bases]"), "c16", {"variant": list(variant), "shapes": list(l), "t": t, "final_newline": final_nl})
         shutil.rmtree(wd, ignore_errors=True)
 
     pmap(do, cases)
